@@ -13,10 +13,15 @@ TECH = {
  "N": "contract-based deductive verification: operator-algebra tracing of the real functions, identities discharged by a non-commutative normaliser with assumed contracts for linear-algebra externals",
  "B": "bounded native stand-ins (labelled bounded, never counted as proved) for the clauses no contract on this repository can decide",
 }
+TECH["S"] = "contract-based deductive verification: chain rule over the function's own intermediate variables (single-assignment execution of the real AST, sympy), callee and call-site contracts"
+TECH["X"] = "exhaustive evaluation of a contract over a finite domain read from the tree under check (bundled files, tables, image boxes)"
 checks = []
 engines_used = {}
+ORDER = "ANZSXB"
 for pid, spec in registry.PROPERTIES.items():
-    eng = spec.get("engines", "A")
+    # the engines are read off the registered obligations (deductive engines first, bounded stand-ins last)
+    obs = registry.load(pid)
+    eng = "".join(sorted({o.engine for o in obs if not o.canary and o.engine in ORDER}, key=ORDER.index)) or spec.get("engines", "A")
     for e in eng:
         engines_used.setdefault(e, []).append(pid)
     checks.append({
@@ -34,7 +39,9 @@ ENG = {
  "A": ("pycv/algebra", "exact-algebra tracing of loader-recompiled /repo modules on Laurent polynomials over Q in a generator tower; in-house normaliser; refutations by 50-digit mpmath, replayed natively"),
  "Z": ("pycv/wp", "AST -> z3 symbolic executor over the real class/function ASTs (path enumeration, property/method inlining, uninterpreted functions for un-modelled computations, callee contracts, loop invariants)"),
  "N": ("pycv/opalg", "non-commutative *-algebra tracing of the real DFT++ operator code with rewrite rules from assumed contracts"),
- "B": ("contracts", "bounded native runs of the real code (separate interpreters, poisoned allocations, forced iteration orders); bounded stand-ins and replays only"),
+ "B": ("contracts", "bounded native evaluations of the contracts on real objects (native twins of the symbolic obligations, histories on reused objects, separate interpreters, poisoned allocations); labelled bounded, never counted as proved"),
+ "S": ("pycv/ssa.py", "single-assignment symbolic execution of a function's AST with sympy: chain rule over the function's own locals, atoms with derivative rules for roots / exp / log, callee results by contract"),
+ "X": ("contracts", "exhaustive native evaluation over finite domains of the tree under check (all bundled pseudopotential files, name tables, special-point tables, lattice image boxes)"),
 }
 m = {
  "version": 1,
